@@ -409,10 +409,10 @@ macro_rules! stream {
 	};
 }
 
-stream!(MutatedCorpus, "mutated-corpus", 4000, 150_000, 120, 10, mutgen::mutated_corpus);
-stream!(FaultedPrograms, "faulted-programs", 3000, 100_000, 1800, 10, mutgen::faulted_program);
-stream!(TokenSoup, "token-soup", 3000, 100_000, 200, 20, mutgen::token_soup);
-stream!(Planted, "planted-character", 2000, 60_000, 1800, 20, mutgen::planted_lexical);
+stream!(MutatedCorpus, "mutated-corpus", 12_000, 150_000, 120, 10, mutgen::mutated_corpus);
+stream!(FaultedPrograms, "faulted-programs", 8000, 100_000, 1800, 10, mutgen::faulted_program);
+stream!(TokenSoup, "token-soup", 8000, 100_000, 200, 20, mutgen::token_soup);
+stream!(Planted, "planted-character", 6000, 60_000, 1800, 20, mutgen::planted_lexical);
 
 fn valid_module_set(c: &mut Choices) -> Case
 {
@@ -503,11 +503,11 @@ fn typed_edit(c: &mut Choices) -> Case
 		planted_at: None,
 	}
 }
-stream!(ExpressionFaults, "planted-expression-fault", 3000, 100_000, 1800, 10, expression_fault);
-stream!(TypedEdits, "typed-edits", 3000, 100_000, 1800, 10, typed_edit);
-stream!(SemanticFaults, "planted-semantic-fault", 3000, 100_000, 1800, 10, semantic_fault);
-stream!(ModuleSets, "module-sets", 600, 30_000, 4000, 2, mutgen::module_set);
-stream!(SplitPrograms, "split-programs-determinism", 400, 20_000, 1800, 1, valid_module_set);
+stream!(ExpressionFaults, "planted-expression-fault", 8000, 100_000, 1800, 10, expression_fault);
+stream!(TypedEdits, "typed-edits", 8000, 100_000, 1800, 10, typed_edit);
+stream!(SemanticFaults, "planted-semantic-fault", 8000, 100_000, 1800, 10, semantic_fault);
+stream!(ModuleSets, "module-sets", 1500, 30_000, 4000, 2, mutgen::module_set);
+stream!(SplitPrograms, "split-programs-determinism", 800, 20_000, 1800, 1, valid_module_set);
 
 struct EdgeFiles;
 const EDGES: &[&str] = &[
